@@ -44,10 +44,10 @@ fn is_over_capacity(a: &Result<(), PoolError>) -> (r: bool) ensures r == (*a mat
 #[verifier::external_body]
 fn coinbase_inputs_of(spent_utxo: &Vec<OutputIdentifier>) -> (r: Inputs) { unimplemented!() }
 
-/// `gen`: generation of the pool's CONTENT (bumped whenever entries are added or removed); `synced`: the generation of the OTHER pool's content this pool was last validated / reconciled against (meaningful for the stempool: stem transactions are kept jointly valid with the public pool)
-pub struct Pool { pub added: Ghost<Seq<PoolEntry>>, pub reconciled_block: Ghost<int>, pub reconciled_full: Ghost<int>, pub gen: Ghost<int>, pub synced: Ghost<int>, pub _p: u8 }
-/// the generation of the pool content an aggregate was built from
-pub uninterp spec fn sp_agg_gen(o: Option<Transaction>) -> int;
+/// `gen`: generation of the pool's CONTENT (bumped whenever entries are added or removed); `synced_with`: the generations of the OTHER pool's content this pool's entries were last validated / reconciled together with (meaningful for the stempool: stem transactions are kept jointly valid with the public pool)
+pub struct Pool { pub added: Ghost<Seq<PoolEntry>>, pub reconciled_block: Ghost<int>, pub reconciled_full: Ghost<int>, pub gen: Ghost<int>, pub synced_with: Ghost<Set<int>>, pub _p: u8 }
+/// `o` is the aggregate of a pool's content at generation g (None when that content is empty)
+pub uninterp spec fn sp_covers(o: Option<Transaction>, g: int) -> bool;
 impl Pool {
     #[verifier::external_body]
     pub fn contains_tx(&self, tx: &Transaction) -> (r: bool) { unimplemented!() }
@@ -56,21 +56,21 @@ impl Pool {
     pub fn size(&self) -> (r: usize) ensures r == self.sp_size() { unimplemented!() }
     #[verifier::external_body]
     pub fn add_to_pool(&mut self, entry: PoolEntry, extra: Option<Transaction>, header: &BlockHeader) -> (r: Result<(), PoolError>)
-        ensures r.is_ok() ==> final(self).added@ == old(self).added@.push(entry) && final(self).gen@ == old(self).gen@ + 1 && (extra is Some ==> final(self).synced@ == sp_agg_gen(extra)) && (extra is None ==> final(self).synced@ == old(self).synced@),
-            r.is_err() ==> final(self).added@ == old(self).added@ && final(self).gen@ == old(self).gen@ && final(self).synced@ == old(self).synced@ { unimplemented!() }
+        ensures r.is_ok() ==> final(self).added@ == old(self).added@.push(entry) && final(self).gen@ == old(self).gen@ + 1 && (forall|g: int| #[trigger] sp_covers(extra, g) ==> final(self).synced_with@.contains(g)) && (forall|g: int| final(self).synced_with@.contains(g) ==> #[trigger] sp_covers(extra, g)),
+            r.is_err() ==> final(self).added@ == old(self).added@ && final(self).gen@ == old(self).gen@ && final(self).synced_with@ == old(self).synced_with@ { unimplemented!() }
     #[verifier::external_body]
-    pub fn all_transactions_aggregate(&self, extra: Option<Transaction>) -> (r: Result<Option<Transaction>, PoolError>) ensures r matches Ok(a) ==> sp_agg_gen(a) == self.gen@ { unimplemented!() }
+    pub fn all_transactions_aggregate(&self, extra: Option<Transaction>) -> (r: Result<Option<Transaction>, PoolError>) ensures r matches Ok(a) ==> sp_covers(a, self.gen@) { unimplemented!() }
     #[verifier::external_body]
     pub fn locate_spends(&self, tx: &Transaction, extra: Option<Transaction>) -> (r: Result<(Vec<OutputIdentifier>, Vec<OutputIdentifier>), PoolError>) { unimplemented!() }
     #[verifier::external_body]
     pub fn reconcile(&mut self, extra: Option<Transaction>, header: &BlockHeader) -> (r: Result<(), PoolError>)
         ensures final(self).added@ == old(self).added@, final(self).reconciled_full@ == old(self).reconciled_full@ + 1, final(self).reconciled_block@ == old(self).reconciled_block@,
-            r.is_ok() ==> final(self).synced@ == sp_agg_gen(extra) { unimplemented!() }
+            r.is_ok() ==> (forall|g: int| #[trigger] sp_covers(extra, g) ==> final(self).synced_with@.contains(g)) && (forall|g: int| final(self).synced_with@.contains(g) ==> #[trigger] sp_covers(extra, g)) { unimplemented!() }
     #[verifier::external_body]
     pub fn reconcile_block(&mut self, block: &Block)
         ensures final(self).added@ == old(self).added@, final(self).reconciled_block@ == old(self).reconciled_block@ + 1, final(self).reconciled_full@ == old(self).reconciled_full@ { unimplemented!() }
     #[verifier::external_body]
-    pub fn evict_transaction(&mut self) ensures final(self).added@ == old(self).added@, final(self).synced@ == old(self).synced@, final(self).gen@ == old(self).gen@ + 1 { unimplemented!() }
+    pub fn evict_transaction(&mut self) ensures final(self).added@ == old(self).added@, final(self).synced_with@ == old(self).synced_with@, final(self).gen@ == old(self).gen@ + 1 { unimplemented!() }
 }
 #[verifier::external_body]
 pub struct Chain { _p: u8 }
@@ -110,16 +110,16 @@ impl TransactionPool {
 //@   ensures:
 //@+    r.is_ok() ==> final(self).stempool.added@ == old(self).stempool.added@.push(*entry), r.is_err() ==> final(self).stempool.added@ == old(self).stempool.added@,
 //@+    final(self).txpool == old(self).txpool,
-//@+    r.is_ok() && extra_tx is Some ==> final(self).stempool.synced@ == sp_agg_gen(extra_tx),
-//@+    r.is_ok() && extra_tx is None ==> final(self).stempool.synced@ == old(self).stempool.synced@,
-//@+    r.is_err() ==> final(self).stempool.synced@ == old(self).stempool.synced@,
+//@+    r.is_ok() ==> forall|g: int| #[trigger] sp_covers(extra_tx, g) ==> final(self).stempool.synced_with@.contains(g),
+//@+    r.is_ok() ==> forall|g: int| final(self).stempool.synced_with@.contains(g) ==> #[trigger] sp_covers(extra_tx, g),
+//@+    r.is_err() ==> final(self).stempool.synced_with@ == old(self).stempool.synced_with@,
 //@ end
 //@ extract pool/src/transaction_pool.rs :: impl TransactionPool::add_to_txpool
 //@   rewrite `entry.clone()` => `*entry` x?
 //@   ensures:
 //@+    r.is_ok() ==> final(self).txpool.added@ == old(self).txpool.added@.push(*entry) && final(self).txpool.gen@ == old(self).txpool.gen@ + 1
 //@+        // the stempool is reconciled against the NEW txpool content
-//@+        && final(self).stempool.synced@ == final(self).txpool.gen@,
+//@+        && final(self).stempool.synced_with@.contains(final(self).txpool.gen@),
 //@+    r.is_err() ==> final(self).txpool.added@ == old(self).txpool.added@ || final(self).txpool.added@ == old(self).txpool.added@.push(*entry),
 //@+    final(self).stempool.added@ == old(self).stempool.added@,
 //@ end
@@ -145,11 +145,11 @@ impl TransactionPool {
 //@   rewrite `\t\tlet coinbase_inputs: Vec<_> = spent_utxo\n\t\t\t.iter()\n\t\t\t.filter(|x| x.is_coinbase())\n\t\t\t.cloned()\n\t\t\t.collect();\n\t\tself.blockchain\n\t\t\t.verify_coinbase_maturity(&coinbase_inputs.as_slice().into())?;` => `\t\tself.blockchain.verify_coinbase_maturity(&coinbase_inputs_of(&spent_utxo))?;`
 //@   rewrite `let ref entry = self.convert_tx_v2(entry, &spent_pool, &spent_utxo)?;` => `let entry_v2 = self.convert_tx_v2(entry, &spent_pool, &spent_utxo)?; let entry = &entry_v2;`
 //@   requires:
-//@+    old(self).stempool.synced@ == old(self).txpool.gen@,
+//@+    old(self).stempool.synced_with@.contains(old(self).txpool.gen@),
 //@   ensures:
 //@+    TransactionPool::admitted_ok(*old(self), *final(self)),
 //@+    // 'stem transactions are in addition jointly valid with the public pool': whenever the txpool's content changed, the stempool was reconciled against the content it has AT RETURN
-//@+    r.is_ok() ==> final(self).stempool.synced@ == final(self).txpool.gen@,
+//@+    r.is_ok() ==> final(self).stempool.synced_with@.contains(final(self).txpool.gen@),
 //@   decreases:
 //@+    (if stem { 1nat } else { 0nat }),
 //@ end
